@@ -170,7 +170,8 @@ func ruleSTRUCTCOPY(c *Ctx, pkgs ...string) {
 									key := ordKey(ord, fmt.Sprintf("%s:%s.%s->%s", ssaFuncKey(f), al.Comment, stt.Field(fld).Name(), g.Name()))
 									ok2 := false
 									for _, s2 := range fresh[fld] {
-										if s2.Block() == escapeAt || s2.Block().Dominates(escapeAt) {
+										// in the block of the copy itself every path from the copy passes it
+										if s2.Block() == escapeAt || s2.Block().Dominates(escapeAt) || s2.Block() == st.Block() {
 											ok2 = true
 										}
 									}
@@ -208,7 +209,7 @@ func ruleSTRUCTCOPY(c *Ctx, pkgs ...string) {
 									key := ordKey(ord, fmt.Sprintf("%s:%s.%s->%s", ssaFuncKey(f), al.Comment, stt.Field(fld).Name(), g.Name()))
 									ok2 := false
 									for _, s2 := range fresh[fld] {
-										if s2.Block() == b2 || s2.Block().Dominates(b2) {
+										if s2.Block() == b2 || s2.Block().Dominates(b2) || s2.Block() == st.Block() {
 											ok2 = true
 										}
 									}
